@@ -19,20 +19,23 @@ impl Check for C18C {
         "C18"
     }
     fn stages(&self, _tier: Tier) -> Vec<String> {
-        vec!["codepoints".into(), "names".into(), "pitargets".into()]
+        vec!["codepoints".into(), "names".into(), "pitargets".into(), "head-xmlns".into(), "head-xml".into(), "head-p:".into()]
     }
     fn prepare(&self, stage: &str, tier: Tier, _input: &[String]) -> Box<dyn Space> {
         match stage {
             "codepoints" => Box::new(CodePoints),
             "pitargets" => Box::new(Names::with(PI_ALPHABET, tier.pick(4, 5), &["pitarget", "element", "entity"])),
+            "head-xmlns" => Box::new(Names::with_head("xmlns", TAIL_ALPHABET, tier.pick(2, 3), &["element", "endtag", "attribute", "xpath"])),
+            "head-xml" => Box::new(Names::with_head("xml", TAIL_ALPHABET, tier.pick(2, 3), &["element", "attribute", "pitarget", "entity"])),
+            "head-p:" => Box::new(Names::with_head("p:", TAIL_ALPHABET, tier.pick(2, 3), &["element", "endtag", "attribute", "xpath"])),
             _ => Box::new(Names::with(ALPHABET, tier.pick(3, 4), CONTEXTS)),
         }
     }
     fn meta(&self) -> Meta {
         Meta {
             rule: "stage codepoints: every Unicode scalar value (all 1,114,112; surrogates are not chars) x 5 public predicates against tables transcribed from productions [2],[4],[4a],[13],[81]; a state is non-trivial when at least one of the five reference predicates is true for it. stage names: every string of length <= L over 30 class representatives / range boundaries, used in 8 syntactic positions (element, end tag, attribute, PI target, entity decl+ref, notation, DOCTYPE, XPath name test); accept/reject and the reported name compared with reference Name/NCName/QName matchers; non-trivial = reference accepts in at least one position",
-            bounds_quick: "code points: none (total); names: length <= 3 over a 30 symbol alphabet",
-            bounds_thorough: "code points: none (total); names: length <= 4 over a 30 symbol alphabet",
+            bounds_quick: "code points: none (total); names: length <= 3 over a 30 symbol alphabet; heads xmlns / xml / p: followed by every tail of length <= 2 over 12 class representatives",
+            bounds_thorough: "code points: none (total); names: length <= 4 over a 30 symbol alphabet; heads xmlns / xml / p: followed by every tail of length <= 3",
             assumptions: &[
                 "reference tables in /verif/mc/src/model/chars.rs are a faithful transcription of XML 1.0 5th ed. productions [2],[4],[4a],[13],[81]",
                 "PI target / entity / notation names: anything between NCName (Namespaces in XML) and Name (XML 1.0) may be accepted or rejected; element, attribute and XPath names must be exactly QName",
@@ -123,10 +126,15 @@ pub const ALPHABET: &[char] = &[
 
 const CONTEXTS: &[&str] = &["element", "endtag", "attribute", "pitarget", "entity", "notation", "doctype", "xpath"];
 
+/// tails after a fixed head (xmlns, xml, p:): one representative per class that a look-ahead could confuse
+pub const TAIL_ALPHABET: &[char] = &['a', 'x', ':', '1', '-', '.', '\u{B7}', '\u{300}', '\u{203F}', ' ', 's', '_'];
+
 /// reserved-target stage: every case folding of x, m, l plus a neutral letter and a hyphen
 pub const PI_ALPHABET: &[char] = &['x', 'X', 'm', 'M', 'l', 'L', 'a', '-'];
 
 struct Names {
+    /// fixed beginning of every candidate (empty for the plain stages); with a head the tail may be empty
+    head: &'static str,
     alphabet: &'static [char],
     contexts: &'static [&'static str],
     maxlen: u32,
@@ -142,9 +150,24 @@ impl Names {
             p *= a;
             n += p;
         }
-        Names { alphabet, contexts, maxlen, n }
+        Names { head: "", alphabet, contexts, maxlen, n }
     }
-    fn candidate(&self, mut idx: u64) -> String {
+    fn with_head(head: &'static str, alphabet: &'static [char], maxlen: u32, contexts: &'static [&'static str]) -> Names {
+        let mut n = Names::with(alphabet, maxlen, contexts);
+        n.head = head;
+        n.n += 1; // the head alone
+        n
+    }
+    fn candidate(&self, idx: u64) -> String {
+        if self.head.is_empty() {
+            return self.tail(idx);
+        }
+        if idx == 0 {
+            return self.head.to_string();
+        }
+        format!("{}{}", self.head, self.tail(idx - 1))
+    }
+    fn tail(&self, mut idx: u64) -> String {
         let a = self.alphabet.len() as u64;
         let mut len = 1;
         let mut p = a;
@@ -172,7 +195,16 @@ fn reference(ctx: &str, s: &str) -> (bool, bool) {
     match ctx {
         "element" | "endtag" | "attribute" | "xpath" => {
             let q = chars::is_qname(s);
-            (q, q)
+            // Namespaces in XML reserves the prefixes xmlns and xml: using xmlns as an element prefix,
+            // declaring xmlns:xmlns or re-binding xmlns:xml are namespace errors an implementation may
+            // (not must) report
+            let (p, l) = chars::split_qname(s);
+            let ns_reserved = match (ctx, p) {
+                ("attribute", Some("xmlns")) => l == "xmlns" || l == "xml",
+                (_, Some("xmlns")) => true,
+                _ => false,
+            };
+            (q && !ns_reserved, q)
         }
         "pitarget" => (
             chars::is_ncname(s) && !xml_equal_ci(s),
@@ -235,7 +267,7 @@ fn impl_accepts(ctx: &str, s: &str) -> Result<bool, String> {
             "attribute" => match d.document_element() {
                 Ok(e) => {
                     let e = e.borrow();
-                    let found = e.attributes().iter().any(|a| {
+                    let found = e.attributes().iter().chain(e.namespace_attributes().iter()).any(|a| {
                         let a = a.borrow();
                         obs::qn(a.prefix(), a.local_name()) == s && a.normalized_value().map(|v| v == "v").unwrap_or(false)
                     });
